@@ -266,6 +266,8 @@ def run(ctx: Context, rep) -> None:
     # nothing read from the dataset's files / the environment is memoised
     from sa.rules import shared as _shm
     _shm.check_no_memo(ctx, rep, "C19.memo")
+    _shm.check_log_args_pure(ctx, rep, "C19.log")
+    _shm.check_assert_pure(ctx, rep, "C19.assert")
     # two streams of one dataset object do not share a pool: every pool /
     # executor / native generator managed by a `with` of an iteration
     # interface is constructed there (a cached pool is still busy with the
